@@ -96,7 +96,9 @@ def deep_programs():
         out.append("def x := True\n" + s)
         out.append("def x := " + "(" * depth + "1" + ")" * depth + "\n")
         out.append("def x := " + "[" * depth + "1" + "]" * depth + "\n")
-        out.append("def x := " + " + ".join(["1"] * depth * 5) + "\n")
+        # (the checker's cost grows faster than linearly with the length of an operator chain: 120 operands take about a
+        # second, 200 take 6-15 s depending on the load of the machine, which is too close to the watchdog)
+        out.append("def x := " + " + ".join(["1"] * depth * 3) + "\n")
         out.append("def f(x: Int) -> Int => " + "f(" * depth + "x" + ")" * depth + "\n")
     out.append("\n".join("def v%d := %d" % (i, i) for i in range(400)) + "\n")
     out.append("\n".join("def f%d(x: Int) -> Int => x + %d" % (i, i) for i in range(150)) + "\n")
@@ -149,7 +151,7 @@ def run(chk):
     cases += [("sample", t) for t in samples]
     ids = [("c%d" % i, "%d %s" % (i % 2, hexs(t))) for i, (_, t) in enumerate(cases)]
     t0 = time.time()
-    res = chk.harness("pipe", ids, timeout=900, case_timeout=20)
+    res = chk.harness("pipe", ids, timeout=1800, case_timeout=60)
     wall = time.time() - t0
     dist, verdicts = {}, {"ok": 0, "err": 0}
     distinct = set()
